@@ -47,5 +47,10 @@ with ThreadPoolExecutor(max_workers=8) as ex:
         print(line, flush=True)
 if not only:
     json.dump(res, open(f"{V}/seeded/RESULTS_ALL.json" if ALL else f"{V}/seeded/RESULTS.json", "w"), indent=1)
+elif ALL and os.path.exists(f"{V}/seeded/RESULTS_ALL.json"):
+    # a partial --all run refreshes its entries in the full matrix
+    full = json.load(open(f"{V}/seeded/RESULTS_ALL.json"))
+    full.update(res)
+    json.dump(dict(sorted(full.items())), open(f"{V}/seeded/RESULTS_ALL.json", "w"), indent=1)
 from collections import Counter
 print(Counter(v["status"] for v in res.values()))
